@@ -3,7 +3,7 @@
 # Confirms a seeded change in a scratch worktree of /repo HEAD: applies, suite passes (85), demo fails with it and
 # passes without it. On success stores it under /verif/seeded/<name>/ (patch.diff, demo.py, meta.json).
 src="$1"; name="$2"
-wt=/tmp/mut/verify_$$
+mkdir -p /tmp/mut; wt=/tmp/mut/verify_$$
 git -C /repo worktree add --detach "$wt" >/dev/null 2>&1 || exit 2
 cleanup() { git -C /repo worktree remove --force "$wt" >/dev/null 2>&1; }
 cd "$wt"
